@@ -56,7 +56,7 @@ def base(c, f):
 def consts(**kw):
     c = {"NCpuSet": {2}, "NFSet": {10}, "ClkSet": {100}, "Threads": {"main", "t2"},
          "Fns": {"cp", "ctp"}, "Forms": {"per", "tot"}, "Modes": {"nb", "block"},
-         "DeltaMode": "pat", "DPos": {0, 1, 5}, "DNeg": {1}, "Patterns": {"mix", "back", "user"},
+         "DeltaMode": "pat", "DPos": {0, 1, 5}, "DNeg": {1}, "Patterns": {"mix", "back", "user"}, "BlockPats": None,
          "MaxAdv": 2, "MaxCalls": 2, "Objs": set(), "PModes": {"nb", "block", "neg"},
          "WallSteps": {0, 1, 64}, "ProcSteps": {0, 1, 5}, "MaxPCalls": 0, "MaxTicks": 0,
          "WallDen": WALLDEN, "BlockWall": BLOCKWALL, "Algo": "stated"}
@@ -64,6 +64,8 @@ def consts(**kw):
         if k not in c:
             raise KeyError(k)
         c[k] = v
+    if c["BlockPats"] is None:
+        c["BlockPats"] = set(c["Patterns"])
     return c
 
 
@@ -582,6 +584,9 @@ def replay_dump(ctx, pools, name, r, per_class, tags, rnd):
 def replay_sim(ctx, pools, name, c, num, depth, tags, rnd):
     jobs = []
     for init, events in replay.sim_behaviours(ctx, "CpuPercent", name, c, num, depth):
+        # (TLC breaks the line after `|->` in long records; tlc.parse_sim_file
+        # then hands the text back unparsed)
+        events = [tlc.parse_value(" ".join(e.split())) if isinstance(e, str) else e for e in events]
         key = (init["ncpu"], init["nf"], init["clk"])
         jobs.append({"key": list(key), "S": rnd.choice(SCALES), "events": events})
     record(ctx, pools, name, jobs, "simulated", tags)
@@ -881,6 +886,13 @@ def _check(ctx, pools):
     if ctx.replay_file:
         return replay_one(ctx, pools, ctx.replay_file)
     tags = set()
+    import time
+    phases = ctx.cov.setdefault("phase_wall_s", {})
+    t0 = [time.time()]
+
+    def phase(name):
+        phases[name] = round(time.time() - t0[0], 1)
+        t0[0] = time.time()
 
     # (1) exhaustive: the structural laws on every transition (TLC runs in the
     # background while the replays use the template processes)
@@ -916,26 +928,33 @@ def _check(ctx, pools):
     if r.violated != "C07_SharesSum":
         raise core.Machinery("vacuity: C07_SharesSum does not reject the max(1, seconds) scale of psutil 7.0.0")
 
+    phase("probe")
     # (a) transition tours
     for name, r in warm(ctx):
         n = len(r.tr)
+        phase("load " + name)
         replay_dump(ctx, pools, name, r, None if (thorough or n < 30000) else 2, tags, rnd)
+        phase("tour " + name)
 
     # (b) simulation: 3 threads, 10 fields, 3 CPUs, deeper
     simc = consts(NCpuSet={3}, Threads={"main", "t2", "t3"}, Modes={"nb", "block", "neg", "times"},
                   Patterns={"idle", "user", "mix", "guest", "back", "backall", "all", "steal", "big", "gonly"},
-                  MaxAdv=8, MaxCalls=4, Objs={"o1", "o2"}, WallSteps={0, 1, 7, 64}, ProcSteps={0, 1, 5, 100},
-                  MaxPCalls=5, MaxTicks=4)
+                  BlockPats={"mix", "back"}, MaxAdv=8, MaxCalls=4, Objs={"o1", "o2"}, WallSteps={1, 7, 64},
+                  ProcSteps={0, 1, 100}, MaxPCalls=5, MaxTicks=4)
     replay_sim(ctx, pools, "simulate-3threads", simc, 2500 if thorough else 400, 30, tags, rnd)
     simc2 = consts(NCpuSet={1, 2}, NFSet={7, 8, 9, 10}, Modes={"nb", "block", "times"},
-                   Patterns={"user", "mix", "guest", "back", "steal", "big"}, MaxAdv=6, MaxCalls=4)
+                   Patterns={"user", "mix", "guest", "back", "steal", "big"}, BlockPats={"guest", "back"},
+                   MaxAdv=6, MaxCalls=4)
     replay_sim(ctx, pools, "simulate-layouts", simc2, 1500 if thorough else 250, 24, tags, rnd)
     simc3 = consts(NFSet={8, 10}, ClkSet={1}, Modes={"nb", "block", "times"},
-                   Patterns={"user", "mix", "guest", "back", "steal", "big"}, MaxAdv=6, MaxCalls=4)
+                   Patterns={"user", "mix", "guest", "back", "steal", "big"}, BlockPats={"mix", "back"},
+                   MaxAdv=6, MaxCalls=4)
     replay_sim(ctx, pools, "simulate-clk1", simc3, 600 if thorough else 100, 24, tags, rnd)
+    phase("simulation")
 
     # (c) random driver judged by TLC
     trace_validate(ctx, pools, 6000 if thorough else 800, 24, tags)
+    phase("trace validation")
 
     for name, c, fut in futs:
         r = fut.result()
@@ -943,6 +962,7 @@ def _check(ctx, pools):
         if r.violated:
             model_violation(ctx, pools, r, name)
     exe.shutdown()
+    phase("waiting for exhaustive runs")
 
     missing = [t for t in REQUIRED_TAGS if t not in tags]
     if missing:
